@@ -185,6 +185,12 @@ def evaluate(ctx, deep):
         for _ in range(nph // 4):
             one(ctx, n, "sparse2")
             one(ctx, n, "one_large")
+    if not deep:
+        # one pass over the larger sizes, where the zero reflection has 6 and 7 controls
+        for n in (6, 7):
+            for fam in FAMILIES[:2]:
+                one(ctx, n, fam)
+            one(ctx, n, "basis_phase")
 
 
 def replay(ctx, case):
